@@ -59,6 +59,26 @@ def gen_parallel(c, jobs):
     return results
 
 
+def prebuild(c):
+    """Build the harness in the background while TLC runs (linking takes tens of seconds on a loaded box)."""
+    box = {}
+
+    def work():
+        try:
+            c.harness()
+        except Exception as e:  # noqa: BLE001  (re-raised by the waiter)
+            box["err"] = e
+
+    t = threading.Thread(target=work)
+    t.start()
+
+    def wait():
+        t.join()
+        if "err" in box:
+            raise box["err"]
+    return wait
+
+
 def concat(c, name, parts):
     path = c.path(name)
     with open(path, "w") as out:
@@ -157,6 +177,7 @@ def first_sample(out):
 
 # ---------------------------------------------------------------------------------- the check
 def run(c):
+    built = prebuild(c)
     ex = c.path("kv_ex.ndjson")
     sim = c.path("kv_sim.ndjson")
     jobs = [dict(module="MC_KV", cfg=c.pick("MC_KV_quick", "MC_KV_thorough"), out=ex, workers=c.pick(3, 5), timeout=c.pick(600, 3000)),
@@ -170,6 +191,7 @@ def run(c):
     c.guard("tlc_transitions", ne)
     c.guard("tlc_sim_transitions", sne)
     edges = concat(c, "kv_all.ndjson", [ex, sim])
+    built()
     adapters = ["%s:%s" % (b, l) for b in BACKENDS for l in LAYERS]
     out = kv_replay(c, "kv", adapters, edges, conf, walks=c.pick(30, 300), wlen=c.pick(60, 150), par=6,
                     clause="kv-semantics")
